@@ -87,7 +87,11 @@ Section Codec.
 
   Lemma deser_step k v rest acc b a m : ~ In eqsign k -> clean_val v ->
     deser_opts b64dec atoi (kv_str (k, v) :: rest) acc b a m =
-    if bytes_eqb k (B"before") then match atoi v with Some z => deser_opts b64dec atoi rest acc z a m | None => None end
+    if bytes_eqb k (B"before") then
+      match atoi v with
+      | Some z => if (c_max_before_context <? z)%Z then None else deser_opts b64dec atoi rest acc z a m
+      | None => None
+      end
     else if bytes_eqb k (B"after") then match atoi v with Some z => deser_opts b64dec atoi rest acc b z m | None => None end
     else if bytes_eqb k (B"max") then match atoi v with Some z => deser_opts b64dec atoi rest acc b a z | None => None end
     else deser_opts b64dec atoi rest ((k, v) :: acc) b a m.
@@ -96,7 +100,7 @@ Section Codec.
     rewrite splitn2_app by assumption. rewrite optval_clean by assumption. reflexivity.
   Qed.
 
-  Lemma deser_opts_client r : forall order acc b a m,
+  Lemma deser_opts_client r : (c_before r <= c_max_before_context)%Z -> forall order acc b a m,
     exists acc',
       deser_opts b64dec atoi (map kv_str (present_opts r order)) acc b a m
       = Some (acc',
@@ -107,6 +111,7 @@ Section Codec.
       /\ is_true (lookup (B"plain") acc') = (has 1 order && c_plain r) || is_true (lookup (B"plain") acc)
       /\ is_true (lookup (B"serverless") acc') = (has 2 order && c_serverless r) || is_true (lookup (B"serverless") acc).
   Proof.
+    intros Hbound.
     induction order as [|k rest IH]; intros acc b a m.
     - simpl. exists acc. repeat split; reflexivity.
     - cbn [Proto.present_opts has existsb].
@@ -162,6 +167,7 @@ Section Codec.
         * rewrite deser_step by (try nomem; apply itoa_alphabet).
           replace (bytes_eqb (B"before") (B"before")) with true by reflexivity.
           rewrite atoi_itoa.
+          replace (c_max_before_context <? c_before r)%Z with false by (symmetry; apply Z.ltb_ge; exact Hbound).
           destruct (IH acc (c_before r) a m) as (acc' & E & Hq & Hp & Hs). exists acc'. split; [|auto].
           rewrite E. rewrite !andb_true_r. cbn [orb]. destruct (has 4 rest); reflexivity.
       + (* after *)
@@ -219,7 +225,7 @@ Section Codec.
   Qed.
 
   Theorem roundtrip (r : creq) (order : list nat) :
-    wf_mode (c_mode r) -> ~ In sp (c_file r) ->
+    wf_mode (c_mode r) -> ~ In sp (c_file r) -> (c_before r <= c_max_before_context)%Z ->
     (forall k, k < 6 -> has k order = true) ->
     regex_compiles (snd (regex_new (c_pattern r) (c_invert r))) = true ->
     let res := srv_write sopts0 [] (wire (command r order)) in
@@ -232,7 +238,7 @@ Section Codec.
     s_quiet (fst (fst res)) = c_quiet r /\ s_plain (fst (fst res)) = c_plain r /\
     s_serverless (fst (fst res)) = c_serverless r.
   Proof.
-    intros Hmode Hfile Hall Hcomp res. subst res.
+    intros Hmode Hfile Hbound Hall Hcomp res. subst res.
     set (cmd := command r order).
     assert (Hwire : wire cmd = (B"protocol" ++ sp :: c_protocol_compat ++ sp :: B"base64" ++ sp :: b64enc cmd) ++ [semicolon]).
     { unfold wire, Proto.wire. cbn. reflexivity. }
@@ -334,7 +340,7 @@ Section Codec.
       { unfold kv_str. destruct (fst kv); reflexivity. }
       rewrite Hne.
       replace (kv_str kv :: map kv_str kvs) with (map kv_str (present_opts r order)) by now rewrite Ekvs.
-      destruct (deser_opts_client r order [] 0%Z 0%Z 0%Z) as (acc' & E & Hq & Hp & Hs).
+      destruct (deser_opts_client r Hbound order [] 0%Z 0%Z 0%Z) as (acc' & E & Hq & Hp & Hs).
       rewrite E. rewrite Hread. cbn [fst snd].
       rewrite !Hall by lia. cbn [andb].
       unfold apply_opts. cbn [sopts0 s_set s_quiet s_plain s_serverless].
